@@ -1025,6 +1025,43 @@ where
         Some(())
     }
 
+    /// case lifted from the scaled model Goldilocks.tla (f64 base field only): operands are given as
+    /// Montgomery forms < M and built with the public from_mont
+    fn sc_lifted(&mut self, i: usize) -> Option<()> {
+        let path = std::env::var("WF_LIFTED").ok()?;
+        let cases = wfcommon::util::read_ndjson(&path);
+        let c = cases.get(i)?;
+        self.dir = Some(if c["src"] == "finding" { "lifted-finding" } else { "lifted-class" });
+        let op = c["op"].as_str().unwrap_or("").to_string();
+        let xm = c["x"].as_u64()?;
+        let xb = self.mk_from_mont(xm)?;
+        let x = self.wrap(E::build(&[xb]), "from_mont", &[]);
+        let r = match op.as_str() {
+            "add" | "sub" | "mul" => {
+                let yb = self.mk_from_mont(c["y"].as_u64()?)?;
+                let y = self.wrap(E::build(&[yb]), "from_mont", &[]);
+                let opn: &'static str = match op.as_str() {
+                    "add" => "add",
+                    "sub" => "sub",
+                    _ => "mul",
+                };
+                self.binary(opn, x, y)?
+            },
+            "double" => self.unary("double", x)?,
+            "square" => self.unary("square", x)?,
+            "neg" => self.unary("neg", x)?,
+            "mul_small" => self.op_mul_small(x, Some(c["k"].as_u64()? as u32))?,
+            _ => x, // as_int: the from_mont event itself checks it
+        };
+        self.eq_canon(r)?;
+        let one = self.mk(&self.fs.one())?;
+        let t = self.binary("add", r, one)?;
+        self.eq_canon(t)?;
+        let t = self.unary("neg", r)?;
+        self.eq_canon(t)?;
+        Some(())
+    }
+
     // -- directed scenarios -------------------------------------------------------------------------
     /// element whose base coordinate `i` has Montgomery form `mont` (others from `rest`)
     fn with_mont(&mut self, i: usize, mont: &Big, rest: &Big) -> Option<V<E>> {
@@ -1172,6 +1209,12 @@ where
         self.k = 0;
         self.rng = Rng::new(seed, combo, sc);
         self.dir = None;
+        if sc >= LIFTED_BASE {
+            let _ = self.sc_lifted((sc - LIFTED_BASE) as usize);
+            self.dir = None;
+            self.out.flush().unwrap();
+            return;
+        }
         let name = self.fs.name;
         let _ = if sc < N_DIRECTED {
             match (name, sc) {
@@ -1198,6 +1241,7 @@ where
 }
 
 pub const N_DIRECTED: u64 = 24;
+pub const LIFTED_BASE: u64 = 1_000_000;
 
 pub const COMBOS: [(&str, usize); 8] =
     [("f64", 1), ("f64", 2), ("f64", 3), ("f62", 1), ("f62", 2), ("f62", 3), ("f128", 1), ("f128", 2)];
